@@ -24,6 +24,7 @@ structure St where
   wher : String := ""
   start : Nat := 0
   oldEnd : Nat := 0
+  newEnd : Nat := 0
   meas : Std.HashMap String Nat := {}
   before : Array String := #[]
   edited : Array String := #[]
@@ -58,6 +59,17 @@ def runCase (s : St) : String × Option Measured :=
           else "ok"
         (s!"tiles={if tiles t then 1 else 0} height={h} max_la={maxLa t} zero_width={zerosTotal t h} reach={reach} bound={bound}", msg)
       | none => ("tiles=- reach=- bound=-", "skipped")
+    -- `reparse_work_bound_partial` on the real re-parse: uncovered nodes of the NEW tree vs the bound
+    let work := if s.size ≤ 20000 then
+        let oldA := collectAddrs ed.root {}
+        let sh : Tree → Bool := fun t => t.data.addr != 0 && oldA.contains t.data.addr
+        let t := nw.root
+        let h := height t
+        let unc := uncoveredTotal sh t h
+        let stray := strayTotal sh t s.start s.newEnd h
+        let bound := (h + 1) * ((s.newEnd - s.start) + maxLa t + 2) + zerosTotal t h
+        s!"uncovered={unc} stray={stray} work_bound={bound} work_ok={if tiles t && unc ≤ bound + stray then 1 else 0}"
+      else "uncovered=- stray=- work_bound=- work_ok=-"
     let bal := balanced nw.root
     let balS := match bal.fail with | none => "ok" | some m => "FAIL " ++ m
     let j := match s.thr.get? (s.lang, s.size) with
@@ -67,8 +79,9 @@ def runCase (s : St) : String × Option Measured :=
         | some msg => "FAIL " ++ msg
         | none => if marks.startsWith "FAIL" then "FAIL marking: " ++ (marks.drop 5).toString
                   else if balS.startsWith "FAIL" then "FAIL not balanced: " ++ (balS.drop 5).toString
-                  else if globS.startsWith "FAIL" then "FAIL global marking bound: " ++ (globS.drop 5).toString else "ok"
-    (s!"{s.id} judge={j} marks={marks} lexed_ppm={m.lexedPpm} bytes_ppm={m.bytesPpm} fresh_ppm={m.freshPpm} freshvis_ppm={m.freshVisPpm} tokens={g "tokens"} lexed={g "lexed"} nodes={sh.nodes} heap={sh.heap} shared={sh.shared} vis_heap={sh.visHeap} vis_shared={sh.visShared} marked={mk.marked} max_marked_kids={mk.maxMarkedKids} depth={mk.maxDepth} chains={bal.chains} chain_max_elems={bal.maxElems} chain_max_height={bal.maxHeight} balance_slack={bal.worstSlack} {glob}", some m)
+                  else if globS.startsWith "FAIL" then "FAIL global marking bound: " ++ (globS.drop 5).toString
+                  else if (work.splitOn "work_ok=0").length > 1 then "FAIL re-parse work bound: uncovered nodes exceed bound + stray (or the new tree does not tile)" else "ok"
+    (s!"{s.id} judge={j} marks={marks} lexed_ppm={m.lexedPpm} bytes_ppm={m.bytesPpm} fresh_ppm={m.freshPpm} freshvis_ppm={m.freshVisPpm} tokens={g "tokens"} lexed={g "lexed"} nodes={sh.nodes} heap={sh.heap} shared={sh.shared} vis_heap={sh.visHeap} vis_shared={sh.visShared} marked={mk.marked} max_marked_kids={mk.maxMarkedKids} depth={mk.maxDepth} chains={bal.chains} chain_max_elems={bal.maxElems} chain_max_height={bal.maxHeight} balance_slack={bal.worstSlack} {glob} {work}", some m)
   | _, _ => (s!"{s.id} judge=BADINPUT unreadable dump", none)
 
 def growthLines (s : St) : Array String := Id.run do
@@ -105,7 +118,7 @@ def step (s : St) (line : String) : IO St := do
     | ["lang", l] => return { s with lang := l }
     | ["size", n] => return { s with size := natOf n }
     | ["where", w] => return { s with wher := w }
-    | "edit" :: sb :: oeb :: _ => return { s with start := natOf sb, oldEnd := natOf oeb }
+    | "edit" :: sb :: oeb :: neb :: _ => return { s with start := natOf sb, oldEnd := natOf oeb, newEnd := natOf neb }
     | "measure" :: kvs =>
       let m := kvs.foldl (fun (m : Std.HashMap String Nat) kv =>
         match kv.splitOn "=" with
